@@ -119,7 +119,7 @@ class _Signal(Exception):
 class St:
     __slots__ = (
         "env", "cur", "aux_dirty", "ckpts", "lists", "stack", "frames", "tags", "atomic", "atomic_saves",
-        "neg", "suppress", "trace", "known", "facts", "notes", "tagctx",
+        "neg", "suppress", "trace", "known", "facts", "notes", "tagctx", "hide", "hide_saves",
     )
 
     def __init__(self) -> None:
@@ -140,6 +140,8 @@ class St:
         self.facts: frozenset = frozenset()
         self.notes: tuple = ()
         self.tagctx: tuple = ()
+        self.hide: object = False  # ParserState.hide_pairs (entry value set by the driver)
+        self.hide_saves: tuple = ()
 
     def fork(self) -> "St":
         n = St.__new__(St)
@@ -160,6 +162,8 @@ class St:
         n.facts = self.facts
         n.notes = self.notes
         n.tagctx = self.tagctx
+        n.hide = self.hide
+        n.hide_saves = self.hide_saves
         return n
 
     def ev(self, *e: object) -> None:
@@ -173,7 +177,7 @@ class St:
         return (
             envk, self.cur, self.aux_dirty, self.ckpts, tuple(sorted(self.lists.items())), self.stack,
             self.frames, self.tags, self.atomic, self.atomic_saves, self.neg, self.suppress, self.trace,
-            self.facts, self.notes, self.tagctx,
+            self.facts, self.notes, self.tagctx, self.hide, self.hide_saves,
         )
 
 
@@ -405,6 +409,8 @@ class Flow:
             return ("atomic",) + st.atomic
         if p == "state.neg_pred_depth":
             return st.neg
+        if p == "state.hide_pairs":
+            return st.hide
         if p == "state.input":
             return Sym("INPUT")
         if p in OBJECT_PATHS:
@@ -1117,11 +1123,11 @@ class Flow:
         ok.cur = self.newnode(ok.cur, "child", cid)
         ok.lists[lst.lid] = ok.lists.get(lst.lid, ()) + (("C", ok.cur),)
         ok.stack = None  # a successful child may have changed the user stack
-        ok.ev("C", cid.cid, cid.k, True, lst.lid, ok.cur, st.atomic, len(st.frames), st.suppress, st.neg)
+        ok.ev("C", cid.cid, cid.k, True, lst.lid, ok.cur, st.atomic, len(st.frames), st.suppress, st.neg, st.hide)
         fl.cur = self.newnode(fl.cur, "dirty", cid)
         fl.aux_dirty = True
         fl.lists[lst.lid] = fl.lists.get(lst.lid, ()) + (("J", fl.cur),)
-        fl.ev("C", cid.cid, cid.k, False, lst.lid, fl.cur, st.atomic, len(st.frames), st.suppress, st.neg)
+        fl.ev("C", cid.cid, cid.k, False, lst.lid, fl.cur, st.atomic, len(st.frames), st.suppress, st.neg, st.hide)
         return [(ok, True), (fl, False)]
 
     def trivia(self, st: St, lst: object) -> list[tuple[St, object]]:
@@ -1280,6 +1286,11 @@ class Flow:
             st.ev("SUPPRESS", v)
         elif path == "state.neg_pred_depth":
             st.ev("WRITE", path)
+        elif path == "state.hide_pairs":
+            if not isinstance(v, (bool, int)):
+                raise self.unsupported(f"state.hide_pairs is assigned a value the model cannot evaluate: {v!r}")
+            st.hide = bool(v)
+            st.ev("HIDE", st.hide)
         elif path.startswith("self."):
             st.ev("SELFWRITE", path)
         elif path in ("state.user_stack.items", "state.rule_stack.items", "state.tag_stack", "state.atomic_depth", "state.input"):
@@ -1507,6 +1518,7 @@ class Flow:
     def ctx_enter(self, st: St, name: str, args: tuple) -> None:
         if name == "atomic_checkpoint":
             st.atomic_saves += (st.atomic,)
+            st.hide_saves += (st.hide,)  # model of the manager; its source is checked against this model (CTX-MODEL)
             st.ev("ATOM", "save")
         elif name == "suppress_failures":
             st.suppress += 1
@@ -1521,6 +1533,9 @@ class Flow:
             if st.atomic_saves:
                 st.atomic = st.atomic_saves[-1]
                 st.atomic_saves = st.atomic_saves[:-1]
+            if st.hide_saves:
+                st.hide = st.hide_saves[-1]
+                st.hide_saves = st.hide_saves[:-1]
             st.ev("ATOM", "restore")
         elif name == "suppress_failures":
             st.suppress = 0
